@@ -22,6 +22,10 @@ func GenScript(r *hx.Rand, kinds []string, nops int) []string {
 		bm.Sector = r.PickInt(4, 8, 16)
 		bm.SectorsPerBl = r.Range(2, 5)
 	}
+	if kind == "hier" && r.Chance(1, 3) {
+		// a long tail of old blocks: copies made under different instance names can both be old
+		bm.Old, bm.Cur, bm.New = r.Range(2, 4), r.Range(0, 1), 1
+	}
 	if r.Chance(1, 4) {
 		bm.Alloc = "mem"
 	}
@@ -98,7 +102,7 @@ func GenScript(r *hx.Rand, kinds []string, nops int) []string {
 				open = append(open[:j], open[j+1:]...)
 			}
 		case x < 70:
-			script = append(script, fmt.Sprintf("get %d %s", r.Intn(total), []string{"s", "s", "s", "r", "c", "w", "a", "p", "d"}[r.Intn(9)]))
+			script = append(script, fmt.Sprintf("get %d %s", r.Intn(total), []string{"s", "s", "s", "r", "c", "w", "a", "p", "d", "x"}[r.Intn(10)]))
 		case x < 85:
 			n := r.Range(1, 3)
 			var os []string
